@@ -38,6 +38,7 @@ struct Obs {
 	SutTrans prev; bool has_prev = false;
 	std::vector<uint8_t> serial; bool has_serial = false;
 	const void* ctx_addr = 0; uint64_t ctx_tag = 0;
+	uint32_t ctx_copies = 0, ctx_moves = 0;   // value-context copy/move constructions since the execution began
 	Obs() { memset(active, 0, sizeof(active)); memset(&prev, 0, sizeof(prev)); }
 };
 
@@ -77,7 +78,7 @@ struct OpExec {                         // one executed operation on one node
 	std::vector<LogEv> logs;
 	Obs before, after;
 	// serialization
-	std::vector<uint8_t> saved_bytes, loaded_bytes; bool canary_ok = true, save_differs = false; int snapshot_index = -1;
+	std::vector<uint8_t> saved_bytes, loaded_bytes; bool canary_ok = true, save_differs = false, compare_bad = false; int snapshot_index = -1;
 	bool saved_active = false; int saved_state = -1;           // LOAD: what the snapshot holds
 	bool budget_exceeded = false;
 	OpExec() { memset(payload, 0, sizeof(payload)); memset(mask, 0, sizeof(mask)); }
